@@ -35,6 +35,10 @@ def modeCount (order : Nat) : Nat := (modeExps order).length
 `order·(order/2+1)/4 = order·(order+2)/8`, truncated. -/
 def coeffsLen (order : Nat) : Nat := order * (order + 2) / 8
 
+/-- Number of coefficients `forward` uses after the repair D30: `coeffs` is cut to the number of
+orthogonalised modes, and QR returns at most one per grid point. -/
+def coeffsUsed (order npix : Nat) : Nat := min (coeffsLen order) (min npix (modeCount order))
+
 /-! ## 2. Vectors -/
 
 /-- Vectors are arrays of a fixed length (strict data: the compiled driver never re-evaluates a
@@ -155,12 +159,30 @@ def levelsBoundary (q s : Rat) (fuel : Nat := 64) : Bool :=
 /-- `qs[i] = 2 * scaling_factor**i`. -/
 def qLevel (s : Rat) (i : Nat) : Rat := 2 * s ^ i
 
-/-- `num_airys[i]`, literally as the code computes it (component 0 pairs with `shape[0] = ny`). -/
+/-- Pixels per level beyond the first: `floor(window_size * scaling_factor)`. -/
+def levelPix (p : MSParams) : Nat := ((p.w : Rat) * p.s).floor.toNat
+
+/-- `num_airys[i]` (component 0 pairs with `shape[0] = ny`), after the repair D32:
+`(floor(window_size * scaling_factor) + 0.5) / (2 * qs[i])` for `i ≥ 1`. -/
 def numAiry (p : MSParams) : Nat → Rat × Rat
   | 0 => ((p.ny : Rat) / 2, (p.nx : Rat) / 2)
   | i + 1 =>
-    let prev := numAiry p i
+    let v := ((levelPix p : Rat) + 1 / 2) / (2 * qLevel p.s (i + 1))
+    (v, v)
+
+/-- The recursion before D32, in exact arithmetic:
+`num_airys[i-1] * window_size / (2 * qs[i-1] * num_airys[i-1])`.  Evaluated in floats its product
+with `2 q_i` can fall just below the integer `window_size * scaling_factor` (s = 3, 5/2, 3/2 …),
+which exact arithmetic cannot show: `dims_old_eq` proves the two agree exactly. -/
+def numAiryOld (p : MSParams) : Nat → Rat × Rat
+  | 0 => ((p.ny : Rat) / 2, (p.nx : Rat) / 2)
+  | i + 1 =>
+    let prev := numAiryOld p i
     (prev.1 * p.w / (2 * qLevel p.s i * prev.1), prev.2 * p.w / (2 * qLevel p.s i * prev.2))
+
+def dimsLevelOld (p : MSParams) (i : Nat) : Nat × Nat :=
+  let na := numAiryOld p i
+  ((2 * na.1 * qLevel p.s i).floor.toNat, (2 * na.2 * qLevel p.s i).floor.toNat)
 
 /-- `dims = (2 * num_airy * q).astype('int')` of `make_focal_grid`. -/
 def dimsLevel (p : MSParams) (i : Nat) : Nat × Nat :=
